@@ -248,7 +248,9 @@ func replayOne(res *mbt.Result, chL, chG *chain, n int, l *mLine) {
 			}
 		}
 		if exp.Class != "exec" || exp.OK == 0 || exp.Tx[1] == 0 {
-			res.Distinct(fmt.Sprintf("%s/ok%d/create%v/step%d", exp.Class, exp.OK, exp.Tx[1] == 0, k+1))
+			keyMu.Lock()
+			keys[fmt.Sprintf("%s/ok%d/create%v/step%d", exp.Class, exp.OK, exp.Tx[1] == 0, k+1)] = struct{}{}
+			keyMu.Unlock()
 		}
 	}
 	cmp := func(tag string, s snap, base snap) bool {
@@ -423,4 +425,5 @@ func TestReplay(t *testing.T) {
 		res.Mismatch("infra:dump-empty", "no dump lines in "+path, nil)
 	}
 	res.Set("replayed_"+os.Getenv("TXE_TAG"), sent)
+	res.Set("distinct_keys", keyList())
 }
